@@ -255,6 +255,25 @@ impl Workload {
                 plan.push(t, 0x4000_0000 + tag, Op::Send { ep, to, ch, mode: MODE_RELIABLE, len: r.range(12, 40) as u32, tag });
                 tag += 1;
                 let other = *r.pick(&[MODE_UNRELIABLE, MODE_PERSISTENT]);
+                if self.channels >= 2 && r.chance(0.4) {
+                    // two-channel variant: the channel's own parent is 256+ packets back while
+                    // another channel's Reliable packet is the (near) window parent
+                    let ch2 = (ch + 1 + r.below(self.channels as u64 - 1) as u8) % self.channels;
+                    let far = *r.pick(&[250u32, 255, 256, 257, 300]);
+                    for _ in 0..far {
+                        plan.push(t, 0x4000_0000 + tag, Op::Send { ep, to, ch: ch2, mode: other, len: r.range(12, 60) as u32, tag });
+                        tag += 1;
+                    }
+                    plan.push(t, 0x4000_0000 + tag, Op::Send { ep, to, ch: ch2, mode: MODE_RELIABLE, len: r.range(12, 40) as u32, tag });
+                    tag += 1;
+                    let near = r.range(1, 140) as u32;
+                    for _ in 0..near {
+                        plan.push(t, 0x4000_0000 + tag, Op::Send { ep, to, ch, mode: other, len: r.range(12, 63) as u32, tag });
+                        tag += 1;
+                    }
+                    left = left.saturating_sub((far + near) as u64 + 2);
+                    continue;
+                }
                 for _ in 0..k {
                     plan.push(t, 0x4000_0000 + tag, Op::Send { ep, to, ch, mode: other, len: r.range(12, 60) as u32, tag });
                     tag += 1;
